@@ -330,12 +330,16 @@ package backend
 
 // FindEvents: under the read lock, classify the request against the cached window and
 // otherwise return exactly the cached events with revision >= the target, in order.
+// fe_ret: what the cache lookup of this watch request returned (ghost assignment at the return)
+//@ ghost fe_ret Ref
 //@ func (*Ring).FindEvents(revision) (ret)
 //@   props C05
+//@   assume_ensures [ghost-assignment] fe_ret == ret
+//@   ensures [newest-bounds-a-request-inside-the-window] !ret.empty && !ret.high ==> ret.newest != nil && revision <= ret.newest.Revision
 // C06: a watch reads the cache only after it has subscribed to the hub, so that an event is either
 // already cached (and caught up) or still to be broadcast (and received): nothing falls between
 //@   requires@C06 [watcher-registered-before-the-cache-is-read] registered
-//@   modifies inferred:(*Ring).FindEvents
+//@   modifies inferred:(*Ring).FindEvents ghost.fe_ret
 //@   let n = len(ret.events)
 //@   let first = locked(r.e)-int64(len(ret.events))
 //@   ensures [classified] ret != nil && ret.empty == (locked(r.e) == 0) && (ret.empty ==> !ret.high && !ret.low && n == 0)
@@ -460,14 +464,26 @@ package backend
 // is not below the start revision (that everything dropped is older did not discharge and is not claimed)
 //@ func filterByRevision(events, rev) (result)
 //@   props C05 C20
-//@   requires [events-are-objects] forall(i, 0 <= i && i < len(events), events[i] != nil)
+// (trusted link: batches come out of the hub's channels, which carry what the sequencer built)
+//@   requires@trusted [events-are-objects] forall(i, 0 <= i && i < len(events), events[i] != nil)
 //@   ensures [suffix] result.obj == events.obj && result.off+len(result) == events.off+len(events) && len(result) <= len(events)
 //@   ensures [first-kept-is-not-older] len(result) > 0 ==> result[0].Revision >= rev
 //@   loop 0 invariant [suffix] events.obj == old(events.obj) && events.off+len(events) == old(events.off+len(events)) && len(events) <= old(len(events)) && events.off >= old(events.off)
 //@   loop 0 invariant [events-are-objects] forall(i, 0 <= i && i < len(events), events[i] != nil)
 
+// C05: the hand-over from cached history to the live stream leaves no gap: when the request falls
+// inside the cached window the live filter starts no later than right after the newest cached event
+// (everything newer is still to be broadcast to the subscription made before the lookup)
+//@ func (*backend).processEvents(cancel, out, in, prefix, revision)
+//@   props C05
+//@   nosafety
+//@   requires b != nil && b.metricCli != nil
+//@   requires@C05 [live-stream-starts-no-later-than-right-after-the-cache] fe_ret != nil && !asref(fe_ret, "*backend.FindRet").empty && !asref(fe_ret, "*backend.FindRet").high && !asref(fe_ret, "*backend.FindRet").low ==> asref(fe_ret, "*backend.FindRet").newest != nil && (asref(fe_ret, "*backend.FindRet").newest.Revision < 0xffffffffffffffff ==> revision <= asref(fe_ret, "*backend.FindRet").newest.Revision+1)
+//@   modifies *
+
 //@ func (*backend).Watch(ctx, prefix, revision) (ch, err)
-//@   props C06
+//@   props C05 C06
+//@   requires [no-lookup-yet] fe_ret == nil
 //@   nosafety
 //@   requires wf_backend(b) && b.watcherHub != nil && b.watcherHub.metricCli != nil && b.watchCache != nil
 //@   requires [a-new-request] !registered
